@@ -29,4 +29,31 @@ package allocate
 //@   ensures [pipelinedMeansNoBindLeft] allocated && pipelined ==> (forall j int :: 0 <= j && j < len(stmt.operations) ==> framework.noBindOf(stmt.operations[j], old(job.UID)))
 //@   ensures [failedNeverPipelined] !allocated ==> !pipelined
 //@   ensures [capacityGate] !framework.jobCapacityVerdict(ssn, job) ==> !allocated
+//@   # exec2: what allocate.Execute needs to hand the statement to Commit / Discard
+//@   trust [failedIsDiscardable] !allocated ==> framework.wfLog(stmt)
+//@   note trust [failedIsDiscardable]: Discard's precondition. Proved on the path where AllocateJob fails (its [wf*Kept] clauses); on the path where ConvertAllAllocatedToPipelined returns an error the log is whatever that function left (it keeps wfKnown/wfRev/wfBack/wfTask as loop invariants but exports no clause about the log), so the clause as a whole is assumed
+//@   trust [successIsCommittable] allocated ==> framework.commitReady(stmt) && framework.wfLog(stmt) && framework.flatLog(stmt)
+//@   note trust [successIsCommittable]: Commit's preconditions on the job's statement. wfLog is kept by AllocateJob, but ConvertAllAllocatedToPipelined exports neither wfLog nor the session skeleton, and "flat" (no entry undone twice, no undo of an undo) after AllocateJob's checkpoint/rollback rounds is the unmechanised log argument of C13; commitReady is the session data invariant (cache, bind mutators, Pod pointers) that no `modifies *` step re-establishes
 //@ end
+
+// ---- exec2: the Execute loop of the allocate action (C06 / C03 / C05 / C16 / C10) -------------------------
+// C06 (min-runtime protection is measured from LastStartTimestamp): the job's start time is THE CURRENT time, in a
+// cell of its own (no other job's clock is shared or moved).
+//@ func setLastStartTimestamp
+//@   props C06 C16
+//@   requires job != nil
+//@   modifies job.LastStartTimestamp
+//@   ensures [startsNow] job.LastStartTimestamp != nil && *job.LastStartTimestamp == now()
+//@   ensures [ownClock] fresh(job.LastStartTimestamp)
+//@ end
+// C16/C05: "the allocate action never places a lower-priority one while leaving a higher-priority one unplaced": jobs
+// are attempted in exactly the order PopNextJob yields them (one attempt per popped job, on a statement of its own);
+// a job whose attempt fails does not stop the loop (its statement is discarded and the next job is popped).
+// C06/C03: "Every such eviction/bind is committed together ...": stmt.Commit() is reached only with the statement
+// of a successful attempt (preconditions of Commit, proved at the call site from attemptToAllocateJob
+// [successIsCommittable]); after a failed attempt the statement is discarded (precondition of Discard: well-formed
+// log, [logStaysWellFormed]) and nothing is committed. setLastStartTimestamp and PushJob get a non-nil job.
+// C10: no panic on any path (a non-empty order yields a job; ssn.Statement() is a fresh statement).
+// (Execute block parked in /tmp/exec2-w/allocate_execute_block.txt until PushJob's preconditions at the re-push are settled with helper pq)
+//@ define sessionJobsOK(ssn *framework.Session) bool = (forall k in ssn.ClusterInfo.PodGroupInfos :: podgroup_info.allTasksOK(ssn.ClusterInfo.PodGroupInfos[k]) && podgroup_info.setsOK(ssn.ClusterInfo.PodGroupInfos[k])) && (forall q in ssn.ClusterInfo.Queues :: ssn.ClusterInfo.Queues[q] != nil)
+// ---- end exec2 ----
